@@ -3,7 +3,7 @@ import collections
 import types
 import vf
 vf.use_repo()
-from ak.ppobj import PPTable, PPRecordFmt  # noqa: E402
+from ak.ppobj import PPTable, PPRecordFmt, RecordField, ReprStructure  # noqa: E402
 from vf import tables as T  # noqa: E402
 from vf.core import sig_of  # noqa: E402
 
@@ -60,7 +60,7 @@ def gen_case(rng, big=False):
     later = rng.choice([None, 'derive', 'grow', 'interleave', 'edit-bounds', 'remove-columns', 'set-fmt'])
     centered = rng.choice([None, None, 'a', 'b', 'd'])
     # how the records are made and how the table learns where the values are
-    shape = rng.choice([None] * 9 + ['namedtuple', 'dict-paths', 'pos-paths', 'attr'])
+    shape = rng.choice([None] * 9 + ['namedtuple', 'dict-paths', 'pos-paths', 'attr', 'field-objects'])
     if shape:
         later = None
     if rng.random() < 0.012:
@@ -95,12 +95,27 @@ def rng_free_len(c):
 _REC = collections.namedtuple("Rec", T.FIELDS)
 
 
+class ComputedField(RecordField):
+    """a field of the application whose value is not simply an element of the record"""
+
+    def fetch_value(self, record):
+        return record[1]
+
+
 def shaped(c):
     """-> (records, fmt, fields) the way the chosen record shape wants them"""
     shape = c.get('shape')
     recs, fmt = c['recs'], c['fmt']
     if not shape:
         return recs, fmt, T.FIELDS
+    if shape == 'field-objects':
+        # the fields are described by field objects; the value of field 'b' is COMPUTED by a field class of the
+        # application (it overrides fetch_value), its declared position in the record holds something else
+        ft = T.mk_field_types(c.get('centered'), c.get('bounded'))
+        dflt = ReprStructure._DFLT_FIELD_TYPE
+        objs = [RecordField(f, ft.get(f, dflt), k, c['titles'][f]) if f != 'b' else
+                ComputedField('b', ft.get('b', dflt), 3, c['titles']['b']) for k, f in enumerate(T.FIELDS)]
+        return recs, fmt, objs
     if shape == 'namedtuple':
         return [_REC(*r) for r in recs], fmt, None
     if shape == 'attr':
@@ -140,9 +155,14 @@ def judge(ctx, c, case):
             # a malformed record makes the first print fail; the caller repairs the record and prints again
             recs_in = list(recs_in)
             recs_in[0] = recs_in[0][:1]
-        t = PPTable(recs_in, fields=fields_in, fmt=fmt_in, limits=c['lim_arg'], header=c['header'],
-                    footer=c['footer'], fields_types=ftypes,
-                    fields_titles=dict(c['titles']))
+        if c.get('shape') == 'field-objects':
+            # (types and titles are part of the field objects)
+            t = PPTable(recs_in, fields=fields_in, fmt=fmt_in, limits=c['lim_arg'], header=c['header'],
+                        footer=c['footer'])
+        else:
+            t = PPTable(recs_in, fields=fields_in, fmt=fmt_in, limits=c['lim_arg'], header=c['header'],
+                        footer=c['footer'], fields_types=ftypes,
+                        fields_titles=dict(c['titles']))
         if broken:
             try:
                 T.render(t)
